@@ -31,6 +31,9 @@ def configs(tier):
                     if api == 'group' and (kw == 'list' or progress == 'tqdm'):
                         continue
                     out.append({'rows': rows, 'kw': kw, 'progress': progress, 'api': api})
+    # integer-typed recordings (raw ADC counts) must reach the per-signal analysis unchanged
+    for api in ('func', 'group'):
+        out.append({'rows': 2, 'kw': 'dict' if api == 'func' else 'none', 'progress': None, 'api': api, 'dtype': 'int'})
     return out
 
 
@@ -80,13 +83,15 @@ def row_option(ctx, i, tag=''):
             'return_samples': (i % 2 == 0)}, t
 
 
-def check_token(ctx, calls, tok, row, opt, rs, obl, where):
+def check_token(ctx, calls, tok, row, opt, rs, obl, where, dtype_of=None, dtype_ref=None):
     a = args_of(calls, tok)
     if a is None:
         obl.append((False, '%s is not an analysis produced for this call' % where))
         return
     vals = ctx.tolist(a['sig'])
     obl.append((len(vals) == len(row), '%s analyses one row' % where))
+    if dtype_of is not None:
+        obl.append((dtype_of(a['sig']) == dtype_of(dtype_ref), '%s analyses the signal with the dtype it was given in' % where))
     obl += [(ctx.eq(u, v), '%s is the analysis of the signal at that position' % where) for u, v in zip(vals, row)]
     obl.append((a.get('fs') == 500.0 and tuple(a.get('f_range')) == (8.0, 12.0), '%s analysed with the caller\'s fs / f_range' % where))
     obl.append((a.get('return_samples') is rs, '%s: return_samples is the function argument (value inside the options ignored)' % where))
@@ -108,8 +113,10 @@ def run(ctx, cfg):
     ff = ctx.mod('bycycle.features.features')
     fit = ctx.mod('bycycle.objs.fit')
     cols = 3
-    vals = [[ctx.real('x%d_%d' % (i, j)) for j in range(cols)] for i in range(rows)]
-    arr = np.array([list(r) for r in vals], dtype=float)
+    is_int = cfg.get('dtype') == 'int'
+    vals = [[(ctx.integer if is_int else ctx.real)('x%d_%d' % (i, j)) for j in range(cols)] for i in range(rows)]
+    arr = np.array([list(r) for r in vals], dtype=int if is_int else float)
+    kind_of = lambda a: np.asarray(a).dtype      # noqa: E731
     n_jobs = ctx.integer('n_jobs')
     ctx.assume(ctx.disj([n_jobs >= 1, n_jobs == -1]))
     cpu = ctx.integer('cpu_count')
@@ -151,10 +158,12 @@ def run(ctx, cfg):
     ctx.obs('order', [args_of(calls, t) is not None for t in res])
     obl = []
     for i in range(rows):
-        check_token(ctx, calls, res[i], vals[i], None if opts is None else opts[i], rs, obl, 'entry %d' % i)
+        check_token(ctx, calls, res[i], vals[i], None if opts is None else opts[i], rs, obl, 'entry %d' % i,
+                    dtype_of=kind_of, dtype_ref=arr)
     if api == 'group':
         obl.append((len(bg.models) == rows, 'one model per row'))
         for i in range(min(rows, len(bg.models))):
             obl.append((bg.models[i].df_features is res[i], 'models mirror df_features position by position'))
             obl += [(ctx.eq(u, v), 'models hold the signal of their position') for u, v in zip(ctx.tolist(bg.models[i].sig), vals[i])]
+            obl.append((kind_of(bg.models[i].sig) == kind_of(arr), 'models hold the signal with its original dtype'))
     ctx.prove_all(obl)
